@@ -67,13 +67,13 @@ pub fn profile(name: &str) -> Profile {
     match name {
         "c01" => Profile { name: "c01", retained: true, ..base },
         "c03" => Profile { name: "c03", adversarial: true, stale_events: true, shared: true, persistent: true, takeover: true, wills: true, retained: true, v5: true, steps: (20, 200), ..base },
-        "c06" => Profile { name: "c06", ..base },
+        "c06" => Profile { name: "c06", v5: true, ..base },
         "c08" => Profile { name: "c08", persistent: true, takeover: true, retained: true, clients: (2, 4), ..base },
         "c09" => Profile { name: "c09", clients: (2, 3), retained: true, ..base },
         "c14" => Profile { name: "c14", adversarial: true, persistent: true, late_signals: true, clients: (3, 5), ..base },
         "c15" => Profile { name: "c15", retained: true, shared: true, wills: true, clients: (2, 4), big_bursts: false, ..base },
         "c16" => Profile { name: "c16", wills: true, retained: true, clients: (2, 4), big_bursts: false, ..base },
-        "c17" => Profile { name: "c17", shared: true, clients: (3, 5), ..base },
+        "c17" => Profile { name: "c17", shared: true, persistent: true, clients: (3, 5), ..base },
         "c19" => Profile { name: "c19", takeover: true, max_conn_small: true, persistent: true, clients: (3, 6), big_bursts: false, steps: (20, 120), ..base },
         "c20" => Profile { name: "c20", v5: true, clients: (2, 3), big_bursts: false, ..base },
         _ => base,
@@ -117,6 +117,8 @@ struct Gen<'a> {
     seq: u64,
     ops: u64,
     p: &'a Profile,
+    /// the stalled-consumer action ran in this case (it is long: once per case)
+    stalled: bool,
     st: &'a mut Stats,
     dead: bool,
     nontrivial_marks: u64,
@@ -296,7 +298,9 @@ impl<'a> Gen<'a> {
         let mut did = false;
         for _ in 0..n {
             if let Some(p) = self.sims[i].to_release.pop_front() {
-                self.push(i, format!("pubrel {p}"));
+                // an MQTT 5 client may attach properties to the release
+                let kind = if self.p.v5 && self.rng.chance(1, 3) { "pubrelp" } else { "pubrel" };
+                self.push(i, format!("{kind} {p}"));
                 did = true;
             } else if let Some(p) = self.sims[i].pending_comp.pop_front() {
                 self.push(i, format!("pubcomp {p}"));
@@ -466,6 +470,56 @@ impl<'a> Gen<'a> {
         false
     }
 
+    /// C16: the broker is full; a CONNECT with a will is refused; a slot frees; the same client
+    /// connects without a will and its link fails: no will may be published
+    fn refused_will(&mut self) {
+        if self.sims.len() < 2 {
+            return;
+        }
+        // a witness subscribed to everything
+        for _ in 0..3 {
+            self.op("consume".into());
+        }
+        self.drain(1);
+        if self.sims[1].id.is_none() {
+            return;
+        }
+        let pk = self.pkid(1);
+        self.push(1, format!("sub {pk} - 1 {} 1", hex(b"#")));
+        self.sims[1].subs.push(("#".into(), 1));
+        self.signal(1);
+        self.op("consume".into());
+        let l = self.sims.len();
+        let cid = format!("c{l}");
+        self.op(format!("connect {l} {} 1 0 0 {} {} 1 0", hex(cid.as_bytes()), hex(b"stale/will"), hex(b"stale")));
+        self.op(format!("drain {l}"));
+        // a slot frees
+        self.drain(0);
+        if let Some(id) = self.sims[0].id {
+            self.op(format!("ev {id} disc"));
+            self.sims[0].alive = false;
+            self.sims[0].old_ids.push(id);
+            self.sims[0].id = None;
+        } else {
+            return;
+        }
+        let mut s = Sim { l, cid: cid.clone(), clean: true, ..Default::default() };
+        s.alive = true;
+        self.sims.push(s);
+        self.op(format!("connect {l} {} 1 0 0 -", hex(cid.as_bytes())));
+        self.op("consume".into());
+        self.drain(l);
+        if let Some(id) = self.sims[l].id {
+            self.op(format!("ev {id} disc"));
+            self.op(format!("ev {id} will {}", hex(cid.as_bytes())));
+            self.sims[l].alive = false;
+            self.sims[l].old_ids.push(id);
+            self.sims[l].id = None;
+        }
+        self.run_to_idle();
+        self.st.tag("refused-connect-with-will");
+    }
+
     fn step(&mut self) {
         let n = self.sims.len();
         let i = self.rng.below(n as u64) as usize;
@@ -502,6 +556,8 @@ impl<'a> Gen<'a> {
             if self.p.takeover { 2 } else { 0 },
             2, // one batch: publishes followed by a packet that ends the connection
             if self.p.name == "c09" { 2 } else { 0 }, // fill the window, then a new QoS>0 subscription with retained matches
+            2, // one batch: a publish matching a subscription of this client, then UNSUBSCRIBE of it
+            if (self.p.name == "c03" || self.p.name == "c14") && !self.stalled { 1 } else { 0 }, // stalled consumer
         ];
         match self.rng.weighted(&w) {
             0 => {
@@ -592,6 +648,69 @@ impl<'a> Gen<'a> {
                 self.drain(i);
                 self.st.tag("window-then-subscribe");
             }
+            16 => {
+                // a publish that wakes this client's own parked request (and those of the other
+                // subscribers of the filter), then the UNSUBSCRIBE of that filter, in ONE batch
+                let Some(_) = self.sims[i].id else { return };
+                if self.sims[i].subs.is_empty() {
+                    return;
+                }
+                let k = self.rng.below(self.sims[i].subs.len() as u64) as usize;
+                let (f, _) = self.sims[i].subs[k].clone();
+                // often another live client holds the same filter and everyone is caught up
+                if self.rng.chance(2, 3) {
+                    let j = (i + 1) % self.sims.len();
+                    if j != i && self.sims[j].alive && self.sims[j].id.is_some() && !self.sims[j].subs.iter().any(|x| x.0 == f) {
+                        let pk = self.pkid(j);
+                        let q = self.rng.below(3) as u8;
+                        self.push(j, format!("sub {pk} - 1 {} {q}", hex(f.as_bytes())));
+                        self.sims[j].subs.push((f.clone(), q));
+                        self.signal(j);
+                    }
+                    self.run_to_idle();
+                    if self.dead || !self.sims[i].alive || self.sims[i].id.is_none() {
+                        return;
+                    }
+                }
+                let path = f.strip_prefix("$share/").and_then(|r| r.split_once('/')).map_or(f.as_str(), |x| x.1);
+                let topic: Vec<&str> = path.split('/').filter(|l| *l != "#").map(|l| if l == "+" { "a" } else { l }).collect();
+                let topic = if topic.is_empty() { "a".to_string() } else { topic.join("/") };
+                for _ in 0..self.rng.range(1, 2) {
+                    let qos = self.rng.below(3) as u8;
+                    let pkid = if qos == 0 { 0 } else { self.pkid(i) };
+                    self.seq += 1;
+                    self.push(i, format!("pub {qos} {pkid} 0 0 {} {} - - 0", hex(topic.as_bytes()), hex(format!("m{}", self.seq).as_bytes())));
+                }
+                let pk = self.pkid(i);
+                self.push(i, format!("unsub {pk} 1 {}", hex(f.as_bytes())));
+                self.sims[i].subs.remove(k);
+                self.signal(i);
+                // more traffic on the topic afterwards: the other subscribers must keep receiving it
+                let j = (i + 1) % self.sims.len();
+                if j != i && self.sims[j].alive && self.sims[j].id.is_some() {
+                    for _ in 0..2 {
+                        self.seq += 1;
+                        self.push(j, format!("pub 0 0 0 0 {} {} - - 0", hex(topic.as_bytes()), hex(format!("m{}", self.seq).as_bytes())));
+                    }
+                    self.signal(j);
+                }
+                self.st.tag("publish-then-unsubscribe-batch");
+            }
+            17 => {
+                // a consumer that stops reading: more acknowledged batches than its wake-up channel
+                // holds, none drained; the router must keep serving (the others and this one)
+                let Some(_) = self.sims[i].id else { return };
+                self.stalled = true;
+                let n = self.rng.range(205, 230);
+                for _ in 0..n {
+                    self.push(i, "ping".into());
+                    self.signal(i);
+                    if self.dead {
+                        return;
+                    }
+                }
+                self.st.tag("stalled-consumer");
+            }
             14 => {
                 // accepted publishes and the connection's end handled in ONE device-data batch
                 let burst = self.rng.range(1, 3);
@@ -629,13 +748,16 @@ impl<'a> Gen<'a> {
 fn one_case(o: &Opts, w: &mut dyn Write, st: &mut Stats, p: &Profile, case: u64, seed: u64) {
     let mut rng = Rng::new(seed);
     writeln!(w, "case {}-{}", p.name, case).unwrap();
+    // C16: some cases run at capacity, so that a CONNECT carrying a will is refused
+    let refused_will = p.name == "c16" && rng.chance(1, 3);
     let max_conn = if p.max_conn_small { rng.range(1, 3) } else { 10 };
     let (seg_size, seg_count) = if p.small_segments && rng.chance(1, 2) { (1024, rng.range(1, 3)) } else { (*rng.pick(&[1024u64, 10240]), *rng.pick(&[3u64, 10, 100])) };
     let max_out = *rng.pick(&[1u64, 2, 10, 200, 1024]);
     let strat = *rng.pick(&["rr", "rnd", "sticky"]);
     let nclients = rng.range(p.clients.0, p.clients.1);
+    let max_conn = if refused_will { nclients } else { max_conn };
     let steps = rng.range(p.steps.0, if o.thorough() { p.steps.1 * 2 } else { p.steps.1 });
-    let mut g = Gen { w, world: World::new(), rng, sims: vec![], seq: 0, ops: 0, p, st, dead: false, nontrivial_marks: 0, spun: false };
+    let mut g = Gen { w, world: World::new(), rng, sims: vec![], seq: 0, ops: 0, p, st, dead: false, nontrivial_marks: 0, spun: false, stalled: false };
     g.op(format!("new {max_conn} {seg_size} {seg_count} {max_out} {strat}"));
     for l in 0..nclients as usize {
         let clean = if p.persistent { g.rng.chance(1, 2) } else { true };
@@ -646,6 +768,9 @@ fn one_case(o: &Opts, w: &mut dyn Write, st: &mut Stats, p: &Profile, case: u64,
             // nothing is promised to a client that misbehaves on purpose: tell the monitors
             g.op(format!("note adv {l}"));
         }
+    }
+    if refused_will {
+        g.refused_will();
     }
     for _ in 0..steps {
         if g.dead {
@@ -734,7 +859,7 @@ pub fn generate(o: &Opts, w: &mut dyn Write) {
     let mut st = Stats::new(
         "random histories of simulated clients against the real Router (connect/subscribe/unsubscribe/publish QoS0-2/acks/disconnect, link pushes, drains, Ready, consume), per-profile adversarial and stale events; one case = one history; non-trivial = history in which at least one publish was forwarded to a subscriber; distinct by the hash of the whole op list",
     );
-    let n = if o.thorough() { 6000 / o.shards.max(1) } else { 150 };
+    let n = if o.thorough() { 6000 / o.shards.max(1) } else { 800 / o.shards.max(1) };
     for c in 0..n {
         let seed = o.seed.wrapping_mul(1_000_003) ^ (o.shard << 40) ^ c ^ (hash_name(p.name) << 20);
         let mut buf: Vec<u8> = Vec::new();
